@@ -113,3 +113,7 @@ def _rest(P, R):
             same_machine = isinstance(v.func.value, ast.Name) and v.func.value.id in km_names
             same_data = len(v.args) == 1 and isinstance(v.args[0], ast.Name) and v.args[0].id == g.value_params[0]
             R.check(same_machine and same_data, "DEP.init", g.key, f"{t.attr} from {src(v)[:60]}", "same machine, same data", "cluster variances/weights are not computed by the fitted k-means machine on the training data", st.lineno)
+    from ..engines import dtype as _dt
+    n_dt = _dt.check_function(P, R, "kmeans:accumulate_indices_means_vars", raw_params=("data",))
+    n_dt += _dt.check_function(P, R, "kmeans:get_centroids_distance", raw_params=("x",))
+    R.floor("DTYPE.raw sites (k-means moments)", n_dt, 2)
